@@ -10,4 +10,5 @@ import DafRel.Props.C03
 #print axioms DafRel.Props.C03.join_backtracking_sound
 #print axioms DafRel.Props.C03.join_with_backtracking_sound
 #print axioms DafRel.Props.C03.join_with_backtracking_and_transfer_sound
+#print axioms DafRel.Props.C03.join_with_every_option_sound
 #print axioms DafRel.Props.C03.bridge_commute_used_by_backtracking
